@@ -162,6 +162,23 @@ def r_alias(A, ctx, scope, rule="R-ALIAS"):
                    what=f"`{norm_src(a)[:80]}`: the array used by the solver may be a copy of "
                         f"`{p}` (conversion call), so the caller's `{p}` is no longer updated in "
                         "place while its sibling buffer is", loc=loc(f, a))
+            # ... and the name bound to the caller's array is never rebound inside the budget
+            # loop (`w, Xw = w_acc, Xw_acc` returns the right coefficients but the caller's
+            # buffers stop following the iterate)
+            if ok and sf.loop is not None:
+                local = a.targets[0].id if isinstance(a.targets[0], ast.Name) else None
+                for st in ast.walk(sf.loop):
+                    if not isinstance(st, ast.Assign):
+                        continue
+                    for t in st.targets:
+                        names = [x.id for x in (t.elts if isinstance(t, ast.Tuple) else [t]) if isinstance(x, ast.Name)]
+                        if local in names:
+                            n += 1
+                            ctx.ob(rule, f"{f.fq}::rebind::{local}", False,
+                                   what=f"`{norm_src(st)[:70]}` rebinds `{local}` inside the iteration loop: "
+                                        f"the solver works in place on the caller's `{p}` (pair (w, Xw) handed "
+                                        "over by path() and warm starts); after this statement the caller's "
+                                        "buffer no longer follows the iterate", loc=loc(f, st))
     ctx.floor(rule, n, scope.get("floor", 10))
 
 
